@@ -137,6 +137,12 @@ def handle : List Sexp → Option Sexp
       match Fill.fill c s with
       | none => pure (.atom "err")
       | some out => pure (.list [.atom "ok", streamToSexp out])
+  | [.atom "derive", root, .list ds] => do
+      -- the chains (link names) of all transformer objects after every derivation
+      let ds ← ds.mapM fun
+        | .list [k, x] => do let k ← k.toNat?; pure (k, x)
+        | _ => none
+      pure (.list ((history [[root]] ds).map fun snap => .list (snap.map .list)))
   | [.atom "fillspec", c, s] => do
       -- the documentation semantics of the filler on the forest `parse` reads; `outside` = the
       -- forest is not in `okForest` (the recorded findings), `unmodelled` = not a well-nested stream
